@@ -783,3 +783,39 @@ def bool_then(c):
 def ref_bitop(c):
     """bit operators on references to integers: total, the result is an integer of that type"""
     return [(c.st, c.top_ret())]
+
+
+# ------------------------------------------------------------------------------------------- slice.iter_mut().for_each(|b| *b = v)
+
+@first(r"^core::slice::<impl \[u8\]>::iter_mut$")
+def bytes_iter_mut(c):
+    """`slice.iter_mut()` over bytes: an iterator that remembers which window of which buffer it walks"""
+    src = c.deref(c.args[0])
+    if isinstance(src, Seq) and src.view is not None:
+        return [(c.st, Iter(src.len, False, "bytesmut", None, Seq(src.len, None, None, src.view, None)))]
+    return c.it.models.lookup_after(c.name, bytes_iter_mut)(c)
+
+
+@first(r"^<std::slice::IterMut<'?.*u8> as std::iter::Iterator>::for_each::<.*>$")
+def bytes_for_each(c):
+    """every byte of the window is assigned what the closure assigns to one byte (run once on a summary byte): a fill"""
+    v = c.deref(c.args[0])
+    f = c.args[1]
+    if not (isinstance(v, Iter) and v.kind == "bytesmut" and isinstance(v.items, Seq)):
+        return c.it.models.lookup_after(c.name, bytes_for_each)(c)
+    win = v.items
+    cell = "%s/%d.%d:fillbyte" % (c.fr.id, c.bb, c.part)
+    c.st.cells[cell] = TOP
+    res = c.call_closure(c.st, f, [Ref(cell)], "fill")
+    if res is None:
+        c.escape(f)
+        c.it.record_write(c.st, win, Lin.const(0), win.len, "data")
+        return [(c.st, Struct())]
+    out = []
+    for st2, _ in res:
+        b = st2.cells.get(cell)
+        zero = isinstance(b, Num) and st2.sys.const_value(b.e) == 0
+        c.it.record_write(st2, win, Lin.const(0), win.len, "zero" if zero else "data")
+        st2.cells.pop(cell, None)
+        out.append((st2, Struct()))
+    return out
